@@ -307,23 +307,32 @@ def _prove_int(pc, claim, timeout_nia, timeout_lia, stats, max_mult_vars):
     r2 = z3.unknown
     nl_present = any(h.degree() > 1 for h in hyps)
     if nl_present:
-        s2 = z3.Solver()
-        s2.set('timeout', min(timeout_lia, 25000))
-        for c in absconj:
-            s2.add(c)
-        nlem = 0
-        for h in hyps:
-            if h.degree() > 2:
-                continue
-            for v in mult:
-                s2.add(L.lin(Poly.var(v) * h) == 0)
-                nlem += 1
-        r2 = s2.check()
-        if stats is not None:
-            stats['queries'] = stats.get('queries', 0) + 1
-            stats['solver_s'] = stats.get('solver_s', 0) + time.time() - t0
-        if r2 == z3.unsat:
-            return ('proved', 'linear abstraction, %d hypotheses x %d multipliers' % (len(hyps), len(mult)))
+        def has_bv(c):
+            return any(z3.is_bv(v) for v in z3.z3util.get_vars(c))
+        # first without the conjuncts that talk about bit-vector symbols (byte-length bookkeeping): dropping
+        # hypotheses is sound for a proof and keeps the linear problem small; then with everything
+        pure = [a for c, a in zip(conj, absconj) if not has_bv(c)]
+        for subset, budget in ((pure, 15000), (absconj, min(timeout_lia, 25000))):
+            if subset is absconj and len(pure) == len(absconj):
+                break
+            s2 = z3.Solver()
+            s2.set('timeout', budget)
+            for c in subset:
+                s2.add(c)
+            nlem = 0
+            for h in hyps:
+                if h.degree() > 2:
+                    continue
+                for v in mult:
+                    s2.add(L.lin(Poly.var(v) * h) == 0)
+                    nlem += 1
+            r2 = s2.check()
+            if stats is not None:
+                stats['queries'] = stats.get('queries', 0) + 1
+            if r2 == z3.unsat:
+                if stats is not None:
+                    stats['solver_s'] = stats.get('solver_s', 0) + time.time() - t0
+                return ('proved', 'linear abstraction, %d hypotheses x %d multipliers' % (len(hyps), len(mult)))
     # the abstraction has a model: hunt for a genuine counterexample by pinning the input symbols to the
     # abstraction's model values (the exact query then is mostly ground arithmetic)
     try:
